@@ -265,7 +265,7 @@ func (g *gen) readOp() Op {
 }
 
 func (g *gen) seekOp() Op {
-	o := Op{T: "seek", H: g.cur}
+	o := Op{T: "seek", H: g.cur, NilArg: g.r.Chance(20)}
 	s := g.size
 	switch g.r.Pick(45, 35, 20) {
 	case 0:
@@ -418,6 +418,7 @@ func (g *gen) handleOp() {
 		o = Op{T: "lines", H: g.cur, K: []int{0, 0, 1, 1, 2, 3, 5, 64}[g.r.Intn(8)]}
 		if t.rd && g.r.Chance(30) {
 			o.Via = "io" // io.input(f); io.lines(), also when f is closed by now
+			o.NilArg = g.r.Chance(25)
 		}
 	case 2:
 		o = g.writeOp()
@@ -474,7 +475,7 @@ func (g *gen) openOp() {
 	if g.r.Chance(50) {
 		m = []string{"r+", "rb+", "r+b", "a+", "r", "w+"}[g.r.Intn(6)]
 	}
-	o := Op{T: "open", Mode: m}
+	o := Op{T: "open", Mode: m, NilArg: g.r.Chance(30)}
 	if g.r.Chance(12) {
 		// io.input(name) / io.output(name): modes "r" / "w"
 		o.Mode, o.Via = []string{"r", "w"}[g.r.Intn(2)], "io"
